@@ -7,7 +7,7 @@ VERIF = os.path.dirname(os.path.abspath(__file__))
 REPO = os.environ.get("VERIF_REPO", "/repo")
 DST = os.path.join(VERIF, "seeded")
 confirm = {}
-for log in ("/verif/build/confirm1.log", "/verif/build/confirm2.log", "/tmp/seed/confirm2.log", "/tmp/seed/confirm3.log", "/tmp/seed/confirm4.log", "/tmp/seed/confirm5.log", "/tmp/seed/confirm6.log", "/tmp/seed/confirm7.log"):
+for log in ("/verif/build/confirm1.log", "/verif/build/confirm2.log", "/tmp/seed/confirm2.log", "/tmp/seed/confirm3.log", "/tmp/seed/confirm4.log", "/tmp/seed/confirm5.log", "/tmp/seed/confirm6.log", "/tmp/seed/confirm7.log", "/tmp/seed/confirm8.log"):
     if os.path.exists(log):
         for l in open(log):
             m = re.match(r"(C\d+)/([a-z]) suite=\[(.*?)\] nodefault_errors=(\d+) with=\[(.*?)\] without=\[(.*?)\]", l)
